@@ -34,6 +34,10 @@ type C05Case struct {
 	// Cond: what else the first assertion's Conditions hold — the window decision must not depend on it:
 	// "" nothing, "foreign-aud", "match+foreign", "foreign+match", "otu+proxy", "all"
 	Cond string `json:"cond,omitempty"`
+	// Session: the first assertion carries an AuthnStatement whose SessionNotOnOrAfter lies "past" / "equal" /
+	// "future" relative to the clock ("" = no AuthnStatement): another instant in the message that is neither of
+	// the bounds the property names — it decides nothing
+	Session string `json:"session,omitempty"`
 }
 
 var deltaGrid = []int64{-int64(time.Hour), -int64(time.Second), -1, 0, 1, int64(time.Second), int64(time.Hour)}
@@ -118,6 +122,12 @@ func c05Issue(c *C05Case) *h.Genuine {
 		if i == 0 {
 			a.NotBefore, a.NotOnOrAfter = c.NB.opt(), c.CN.opt()
 			a.HasConditions = !c.NoCond
+			if c.Session != "" {
+				d := map[string]time.Duration{"past": -time.Hour, "equal": 0, "future": time.Hour, "past-far": -30 * 24 * time.Hour}[c.Session]
+				a.HasAuthn, a.SessionIndex = true, h.S("_session")
+				a.AuthnInstant = h.S(c.SP.Now().Add(-time.Minute).UTC().Format(time.RFC3339))
+				a.SessionNotOnOrAfter = h.S(h.RenderTime(c.SP.Now().Add(d), []int{0, 120, -300}[len(c.SC)%3], len(c.SC)%2 == 0, 9))
+			}
 			match, foreign := []string{c.SP.Audience}, []string{"https://someone-else.example.org/sp"}
 			switch c.Cond {
 			case "foreign-aud":
@@ -212,6 +222,7 @@ func genC05(t *rapid.T) C05Case {
 	}
 	c.NoCond = rapid.IntRange(0, 15).Draw(t, "noConditions") == 0
 	c.Cond = rapid.SampledFrom([]string{"", "", "foreign-aud", "match+foreign", "foreign+match", "otu+proxy", "all"}).Draw(t, "otherConditions")
+	c.Session = rapid.SampledFrom([]string{"", "", "past", "equal", "future", "past-far"}).Draw(t, "sessionNotOnOrAfter")
 	finishC05(&c, func(err error) { t.Fatalf("harness: %v", err) })
 	return c
 }
@@ -253,7 +264,7 @@ func judgeC05(c C05Case, newSP func() *saml2.SAMLServiceProvider) h.Outcome {
 		}
 	}
 	o.NonTrivial = c.Boundary || nonUTC
-	o.Classes = append(o.Classes, "mode:"+c.Mode, fmt.Sprintf("n:%d", len(c.SC)))
+	o.Classes = append(o.Classes, "mode:"+c.Mode, fmt.Sprintf("n:%d", len(c.SC)), "session:"+c.Session)
 	if c.SP.NilClock {
 		o.Classes = append(o.Classes, "no-clock")
 	}
@@ -449,7 +460,7 @@ func TestC05_Grid(t *testing.T) {
 	mk := func(mode string, sc []int64, nb, cn int64, variant int) {
 		sp := h.BaseSP()
 		sp.NowUnixNano += int64(variant) * 123456789 // sub-second clock too
-		c := C05Case{SP: sp, Mode: mode, Cond: []string{"", "foreign-aud", "match+foreign", "otu+proxy", "foreign+match", "all", ""}[len(cases)%7]}
+		c := C05Case{SP: sp, Mode: mode, Cond: []string{"", "foreign-aud", "match+foreign", "otu+proxy", "foreign+match", "all", ""}[len(cases)%7], Session: []string{"", "past", "equal", "future", "past-far"}[len(cases)%5]}
 		if mode == "skip" {
 			c.SP.Skip = true
 		}
